@@ -201,6 +201,48 @@ def run_batch(chk, tier, batch_seed, runs, workers):
             'errors': errors, 'done': done}
 
 
+# ------------------------------------------------------------- isolation
+
+def isolated_execute(chk, case, timeout=120):
+    """Execute one case in a forked child so that state the SUT keeps per
+    process (caches, class attributes, module globals) cannot leak from one
+    candidate to the next.  The parent never executes cases itself when it
+    runs with worker processes, so every child starts from a state in which
+    the SUT has only been imported."""
+    r, w = os.pipe()
+    pid = os.fork()
+    if pid == 0:
+        try:
+            os.close(r)
+            try:
+                res = chk.execute(case)
+                out = {'violations': res['violations'],
+                       'digest': res['digest']}
+            except BaseException:
+                out = {'error': traceback.format_exc()}
+            data = json.dumps(out, default=core._default).encode()
+            with os.fdopen(w, 'wb') as f:
+                f.write(data)
+        finally:
+            os._exit(0)
+    os.close(w)
+    chunks = []
+    with os.fdopen(r, 'rb') as f:
+        while True:
+            b = f.read(1 << 16)
+            if not b:
+                break
+            chunks.append(b)
+    os.waitpid(pid, 0)
+    if not chunks:
+        raise core.HarnessError('isolated execution produced nothing')
+    out = json.loads(b''.join(chunks).decode())
+    if 'error' in out:
+        raise core.HarnessError('isolated execution failed:\n' +
+                                out['error'])
+    return out
+
+
 # ------------------------------------------------------------- minimiser
 
 def vkey(chk, case, v):
@@ -219,7 +261,7 @@ def minimise(chk, case, key, max_exec=400, max_s=20.0):
                 return cur, execs
             execs += 1
             try:
-                res = chk.execute(cand)
+                res = isolated_execute(chk, cand)
             except Exception:
                 continue
             if any(vkey(chk, cand, v) == key for v in res['violations']):
@@ -374,20 +416,39 @@ def main(argv=None):
                                     item['run_seed']))
             continue
         case = item['case']
+        try:
+            res = isolated_execute(chk, case)
+        except Exception:
+            harness_errors.append('isolated run: ' + traceback.format_exc())
+            continue
+        vs = [v for v in res['violations'] if vkey(chk, case, v) == k]
+        if not vs:
+            harness_errors.append(
+                'violation %s (run %d, seed %d) was observed in the batch but '
+                'does not reproduce when its case is executed alone in a '
+                'fresh process: it depends on state carried over from earlier '
+                'runs in the same worker process (detail: %s)' % (
+                    cls, item['index'], item['run_seed'],
+                    core.canon(item['violation']['detail'])[:600]))
+            continue
         if not args.no_minimise:
             try:
                 case, _n = minimise(chk, case, k)
             except Exception:
                 harness_errors.append('minimiser: ' + traceback.format_exc())
-        res = chk.execute(case)
-        vs = [v for v in res['violations'] if vkey(chk, case, v) == k]
-        if not vs:
-            harness_errors.append(
-                'violation %s (seed %d) did not reproduce in-process' % (
-                    cls, item['run_seed']))
-            continue
+            res = isolated_execute(chk, case)
+            vs = [v for v in res['violations'] if vkey(chk, case, v) == k]
         path = write_replay(pid, item, case, vs[0], res['digest'], fid)
         ok, txt = fresh_replay_ok(pid, path)
+        if not ok and case is not item['case']:
+            # fall back to the unminimised case
+            case = item['case']
+            res = isolated_execute(chk, case)
+            vs = [v for v in res['violations'] if vkey(chk, case, v) == k]
+            if vs:
+                path = write_replay(pid, item, case, vs[0], res['digest'],
+                                    fid)
+                ok, txt = fresh_replay_ok(pid, path)
         if not ok:
             harness_errors.append(
                 'replay %s did not reproduce in a fresh interpreter:\n%s' % (
